@@ -88,6 +88,22 @@ module Nat =
 
   let ltb n m =
     leb (S n) m
+
+  (** val divmod : nat -> nat -> nat -> nat -> nat * nat **)
+
+  let rec divmod x y q0 u =
+    match x with
+    | O -> (q0, u)
+    | S x' ->
+      (match u with
+       | O -> divmod x' y (S q0) y
+       | S u' -> divmod x' y q0 u')
+
+  (** val div : nat -> nat -> nat **)
+
+  let div x y = match y with
+  | O -> y
+  | S y' -> fst (divmod x y' O y')
  end
 
 (** val nth : nat -> 'a1 list -> 'a1 -> 'a1 **)
@@ -110,6 +126,12 @@ let rec nth_error l = function
 | S n0 -> (match l with
            | [] -> None
            | _ :: l0 -> nth_error l0 n0)
+
+(** val rev : 'a1 list -> 'a1 list **)
+
+let rec rev = function
+| [] -> []
+| x :: l' -> app (rev l') (x :: [])
 
 (** val map : ('a1 -> 'a2) -> 'a1 list -> 'a2 list **)
 
@@ -161,6 +183,21 @@ let rec firstn n l =
              | [] -> []
              | a :: l0 -> a :: (firstn n0 l0))
 
+(** val skipn : nat -> 'a1 list -> 'a1 list **)
+
+let rec skipn n l =
+  match n with
+  | O -> l
+  | S n0 -> (match l with
+             | [] -> []
+             | _ :: l0 -> skipn n0 l0)
+
+(** val seq : nat -> nat -> nat list **)
+
+let rec seq start = function
+| O -> []
+| S len1 -> start :: (seq (S start) len1)
+
 (** val repeat : 'a1 -> nat -> 'a1 list **)
 
 let rec repeat x = function
@@ -179,6 +216,14 @@ type z =
 
 module Pos =
  struct
+  type mask =
+  | IsNul
+  | IsPos of positive
+  | IsNeg
+ end
+
+module Coq_Pos =
+ struct
   (** val succ : positive -> positive **)
 
   let rec succ = function
@@ -192,17 +237,17 @@ module Pos =
     match x with
     | XI p ->
       (match y with
-       | XI q -> XO (add_carry p q)
-       | XO q -> XI (add p q)
+       | XI q0 -> XO (add_carry p q0)
+       | XO q0 -> XI (add p q0)
        | XH -> XO (succ p))
     | XO p ->
       (match y with
-       | XI q -> XI (add p q)
-       | XO q -> XO (add p q)
+       | XI q0 -> XI (add p q0)
+       | XO q0 -> XO (add p q0)
        | XH -> XI p)
     | XH -> (match y with
-             | XI q -> XO (succ q)
-             | XO q -> XI q
+             | XI q0 -> XO (succ q0)
+             | XO q0 -> XI q0
              | XH -> XO XH)
 
   (** val add_carry : positive -> positive -> positive **)
@@ -211,18 +256,18 @@ module Pos =
     match x with
     | XI p ->
       (match y with
-       | XI q -> XI (add_carry p q)
-       | XO q -> XO (add_carry p q)
+       | XI q0 -> XI (add_carry p q0)
+       | XO q0 -> XO (add_carry p q0)
        | XH -> XI (succ p))
     | XO p ->
       (match y with
-       | XI q -> XO (add_carry p q)
-       | XO q -> XI (add p q)
+       | XI q0 -> XO (add_carry p q0)
+       | XO q0 -> XI (add p q0)
        | XH -> XO (succ p))
     | XH ->
       (match y with
-       | XI q -> XI (succ q)
-       | XO q -> XO (succ q)
+       | XI q0 -> XI (succ q0)
+       | XO q0 -> XO (succ q0)
        | XH -> XI XH)
 
   (** val pred_double : positive -> positive **)
@@ -232,6 +277,72 @@ module Pos =
   | XO p -> XI (pred_double p)
   | XH -> XH
 
+  type mask = Pos.mask =
+  | IsNul
+  | IsPos of positive
+  | IsNeg
+
+  (** val succ_double_mask : mask -> mask **)
+
+  let succ_double_mask = function
+  | IsNul -> IsPos XH
+  | IsPos p -> IsPos (XI p)
+  | IsNeg -> IsNeg
+
+  (** val double_mask : mask -> mask **)
+
+  let double_mask = function
+  | IsPos p -> IsPos (XO p)
+  | x0 -> x0
+
+  (** val double_pred_mask : positive -> mask **)
+
+  let double_pred_mask = function
+  | XI p -> IsPos (XO (XO p))
+  | XO p -> IsPos (XO (pred_double p))
+  | XH -> IsNul
+
+  (** val sub_mask : positive -> positive -> mask **)
+
+  let rec sub_mask x y =
+    match x with
+    | XI p ->
+      (match y with
+       | XI q0 -> double_mask (sub_mask p q0)
+       | XO q0 -> succ_double_mask (sub_mask p q0)
+       | XH -> IsPos (XO p))
+    | XO p ->
+      (match y with
+       | XI q0 -> succ_double_mask (sub_mask_carry p q0)
+       | XO q0 -> double_mask (sub_mask p q0)
+       | XH -> IsPos (pred_double p))
+    | XH -> (match y with
+             | XH -> IsNul
+             | _ -> IsNeg)
+
+  (** val sub_mask_carry : positive -> positive -> mask **)
+
+  and sub_mask_carry x y =
+    match x with
+    | XI p ->
+      (match y with
+       | XI q0 -> succ_double_mask (sub_mask_carry p q0)
+       | XO q0 -> double_mask (sub_mask p q0)
+       | XH -> IsPos (pred_double p))
+    | XO p ->
+      (match y with
+       | XI q0 -> double_mask (sub_mask_carry p q0)
+       | XO q0 -> succ_double_mask (sub_mask_carry p q0)
+       | XH -> double_pred_mask p)
+    | XH -> IsNeg
+
+  (** val sub : positive -> positive -> positive **)
+
+  let sub x y =
+    match sub_mask x y with
+    | IsPos z0 -> z0
+    | _ -> XH
+
   (** val mul : positive -> positive -> positive **)
 
   let rec mul x y =
@@ -240,19 +351,26 @@ module Pos =
     | XO p -> XO (mul p y)
     | XH -> y
 
+  (** val size_nat : positive -> nat **)
+
+  let rec size_nat = function
+  | XI p0 -> S (size_nat p0)
+  | XO p0 -> S (size_nat p0)
+  | XH -> S O
+
   (** val compare_cont : comparison -> positive -> positive -> comparison **)
 
   let rec compare_cont r x y =
     match x with
     | XI p ->
       (match y with
-       | XI q -> compare_cont r p q
-       | XO q -> compare_cont Gt p q
+       | XI q0 -> compare_cont r p q0
+       | XO q0 -> compare_cont Gt p q0
        | XH -> Gt)
     | XO p ->
       (match y with
-       | XI q -> compare_cont Lt p q
-       | XO q -> compare_cont r p q
+       | XI q0 -> compare_cont Lt p q0
+       | XO q0 -> compare_cont r p q0
        | XH -> Gt)
     | XH -> (match y with
              | XH -> r
@@ -262,6 +380,43 @@ module Pos =
 
   let compare =
     compare_cont Eq
+
+  (** val ggcdn :
+      nat -> positive -> positive -> positive * (positive * positive) **)
+
+  let rec ggcdn n a b =
+    match n with
+    | O -> (XH, (a, b))
+    | S n0 ->
+      (match a with
+       | XI a' ->
+         (match b with
+          | XI b' ->
+            (match compare a' b' with
+             | Eq -> (a, (XH, XH))
+             | Lt ->
+               let (g, p) = ggcdn n0 (sub b' a') a in
+               let (ba, aa) = p in (g, (aa, (add aa (XO ba))))
+             | Gt ->
+               let (g, p) = ggcdn n0 (sub a' b') b in
+               let (ab, bb) = p in (g, ((add bb (XO ab)), bb)))
+          | XO b0 ->
+            let (g, p) = ggcdn n0 a b0 in
+            let (aa, bb) = p in (g, (aa, (XO bb)))
+          | XH -> (XH, (a, XH)))
+       | XO a0 ->
+         (match b with
+          | XI _ ->
+            let (g, p) = ggcdn n0 a0 b in
+            let (aa, bb) = p in (g, ((XO aa), bb))
+          | XO b0 -> let (g, p) = ggcdn n0 a0 b0 in ((XO g), p)
+          | XH -> (XH, (a, XH)))
+       | XH -> (XH, (XH, b)))
+
+  (** val ggcd : positive -> positive -> positive * (positive * positive) **)
+
+  let ggcd a b =
+    ggcdn (Coq__1.add (size_nat a) (size_nat b)) a b
 
   (** val iter_op : ('a1 -> 'a1 -> 'a1) -> positive -> 'a1 -> 'a1 **)
 
@@ -297,13 +452,13 @@ module Z =
   let succ_double = function
   | Z0 -> Zpos XH
   | Zpos p -> Zpos (XI p)
-  | Zneg p -> Zneg (Pos.pred_double p)
+  | Zneg p -> Zneg (Coq_Pos.pred_double p)
 
   (** val pred_double : z -> z **)
 
   let pred_double = function
   | Z0 -> Zneg XH
-  | Zpos p -> Zpos (Pos.pred_double p)
+  | Zpos p -> Zpos (Coq_Pos.pred_double p)
   | Zneg p -> Zneg (XI p)
 
   (** val pos_sub : positive -> positive -> z **)
@@ -312,18 +467,18 @@ module Z =
     match x with
     | XI p ->
       (match y with
-       | XI q -> double (pos_sub p q)
-       | XO q -> succ_double (pos_sub p q)
+       | XI q0 -> double (pos_sub p q0)
+       | XO q0 -> succ_double (pos_sub p q0)
        | XH -> Zpos (XO p))
     | XO p ->
       (match y with
-       | XI q -> pred_double (pos_sub p q)
-       | XO q -> double (pos_sub p q)
-       | XH -> Zpos (Pos.pred_double p))
+       | XI q0 -> pred_double (pos_sub p q0)
+       | XO q0 -> double (pos_sub p q0)
+       | XH -> Zpos (Coq_Pos.pred_double p))
     | XH ->
       (match y with
-       | XI q -> Zneg (XO q)
-       | XO q -> Zneg (Pos.pred_double q)
+       | XI q0 -> Zneg (XO q0)
+       | XO q0 -> Zneg (Coq_Pos.pred_double q0)
        | XH -> Z0)
 
   (** val add : z -> z -> z **)
@@ -334,13 +489,13 @@ module Z =
     | Zpos x' ->
       (match y with
        | Z0 -> x
-       | Zpos y' -> Zpos (Pos.add x' y')
+       | Zpos y' -> Zpos (Coq_Pos.add x' y')
        | Zneg y' -> pos_sub x' y')
     | Zneg x' ->
       (match y with
        | Z0 -> x
        | Zpos y' -> pos_sub y' x'
-       | Zneg y' -> Zneg (Pos.add x' y'))
+       | Zneg y' -> Zneg (Coq_Pos.add x' y'))
 
   (** val opp : z -> z **)
 
@@ -357,13 +512,13 @@ module Z =
     | Zpos x' ->
       (match y with
        | Z0 -> Z0
-       | Zpos y' -> Zpos (Pos.mul x' y')
-       | Zneg y' -> Zneg (Pos.mul x' y'))
+       | Zpos y' -> Zpos (Coq_Pos.mul x' y')
+       | Zneg y' -> Zneg (Coq_Pos.mul x' y'))
     | Zneg x' ->
       (match y with
        | Z0 -> Z0
-       | Zpos y' -> Zneg (Pos.mul x' y')
-       | Zneg y' -> Zpos (Pos.mul x' y'))
+       | Zpos y' -> Zneg (Coq_Pos.mul x' y')
+       | Zneg y' -> Zpos (Coq_Pos.mul x' y'))
 
   (** val compare : z -> z -> comparison **)
 
@@ -374,12 +529,19 @@ module Z =
              | Zpos _ -> Lt
              | Zneg _ -> Gt)
     | Zpos x' -> (match y with
-                  | Zpos y' -> Pos.compare x' y'
+                  | Zpos y' -> Coq_Pos.compare x' y'
                   | _ -> Gt)
     | Zneg x' ->
       (match y with
-       | Zneg y' -> compOpp (Pos.compare x' y')
+       | Zneg y' -> compOpp (Coq_Pos.compare x' y')
        | _ -> Lt)
+
+  (** val sgn : z -> z **)
+
+  let sgn = function
+  | Z0 -> Z0
+  | Zpos _ -> Zpos XH
+  | Zneg _ -> Zneg XH
 
   (** val ltb : z -> z -> bool **)
 
@@ -388,18 +550,102 @@ module Z =
     | Lt -> true
     | _ -> false
 
+  (** val abs : z -> z **)
+
+  let abs = function
+  | Zneg p -> Zpos p
+  | x -> x
+
   (** val to_nat : z -> nat **)
 
   let to_nat = function
-  | Zpos p -> Pos.to_nat p
+  | Zpos p -> Coq_Pos.to_nat p
   | _ -> O
 
   (** val of_nat : nat -> z **)
 
   let of_nat = function
   | O -> Z0
-  | S n0 -> Zpos (Pos.of_succ_nat n0)
+  | S n0 -> Zpos (Coq_Pos.of_succ_nat n0)
+
+  (** val to_pos : z -> positive **)
+
+  let to_pos = function
+  | Zpos p -> p
+  | _ -> XH
+
+  (** val ggcd : z -> z -> z * (z * z) **)
+
+  let ggcd a b =
+    match a with
+    | Z0 -> ((abs b), (Z0, (sgn b)))
+    | Zpos a0 ->
+      (match b with
+       | Z0 -> ((abs a), ((sgn a), Z0))
+       | Zpos b0 ->
+         let (g, p) = Coq_Pos.ggcd a0 b0 in
+         let (aa, bb) = p in ((Zpos g), ((Zpos aa), (Zpos bb)))
+       | Zneg b0 ->
+         let (g, p) = Coq_Pos.ggcd a0 b0 in
+         let (aa, bb) = p in ((Zpos g), ((Zpos aa), (Zneg bb))))
+    | Zneg a0 ->
+      (match b with
+       | Z0 -> ((abs a), ((sgn a), Z0))
+       | Zpos b0 ->
+         let (g, p) = Coq_Pos.ggcd a0 b0 in
+         let (aa, bb) = p in ((Zpos g), ((Zneg aa), (Zpos bb)))
+       | Zneg b0 ->
+         let (g, p) = Coq_Pos.ggcd a0 b0 in
+         let (aa, bb) = p in ((Zpos g), ((Zneg aa), (Zneg bb))))
  end
+
+type q = { qnum : z; qden : positive }
+
+(** val inject_Z : z -> q **)
+
+let inject_Z x =
+  { qnum = x; qden = XH }
+
+(** val qplus : q -> q -> q **)
+
+let qplus x y =
+  { qnum = (Z.add (Z.mul x.qnum (Zpos y.qden)) (Z.mul y.qnum (Zpos x.qden)));
+    qden = (Coq_Pos.mul x.qden y.qden) }
+
+(** val qmult : q -> q -> q **)
+
+let qmult x y =
+  { qnum = (Z.mul x.qnum y.qnum); qden = (Coq_Pos.mul x.qden y.qden) }
+
+(** val qopp : q -> q **)
+
+let qopp x =
+  { qnum = (Z.opp x.qnum); qden = x.qden }
+
+(** val qminus : q -> q -> q **)
+
+let qminus x y =
+  qplus x (qopp y)
+
+(** val qinv : q -> q **)
+
+let qinv x =
+  match x.qnum with
+  | Z0 -> { qnum = Z0; qden = XH }
+  | Zpos p -> { qnum = (Zpos x.qden); qden = p }
+  | Zneg p -> { qnum = (Zneg x.qden); qden = p }
+
+(** val qdiv : q -> q -> q **)
+
+let qdiv x y =
+  qmult x (qinv y)
+
+(** val qred : q -> q **)
+
+let qred q0 =
+  let { qnum = q1; qden = q2 } = q0 in
+  let (r1, r2) = snd (Z.ggcd q1 (Zpos q2)) in
+  { qnum = r1; qden = (Z.to_pos r2) }
 
 type sx =
 | SZ of z
@@ -451,6 +697,30 @@ let dlist f = function
 | SZ _ -> None
 | SL l -> opt_all (map f l)
 
+(** val dq : sx -> q option **)
+
+let dq = function
+| SZ _ -> None
+| SL l ->
+  (match l with
+   | [] -> None
+   | s0 :: l0 ->
+     (match s0 with
+      | SZ n ->
+        (match l0 with
+         | [] -> None
+         | s1 :: l1 ->
+           (match s1 with
+            | SZ d ->
+              (match l1 with
+               | [] ->
+                 if Z.ltb Z0 d
+                 then Some { qnum = n; qden = (Z.to_pos d) }
+                 else None
+               | _ :: _ -> None)
+            | SL _ -> None))
+      | SL _ -> None))
+
 (** val ez : z -> sx **)
 
 let ez z0 =
@@ -470,6 +740,11 @@ let ebool b =
 
 let elist f l =
   SL (map f l)
+
+(** val eq_ : q -> sx **)
+
+let eq_ q0 =
+  let r = qred q0 in SL ((SZ r.qnum) :: ((SZ (Zpos r.qden)) :: []))
 
 (** val eopt : ('a1 -> sx) -> 'a1 option -> sx **)
 
@@ -911,3 +1186,355 @@ let run_C13 = function
                  SL (run_ops { s_store = (init cc); s_iters = [] } ops)
                | None -> sx_fail)
             | _ :: _ -> sx_fail))))
+
+(** val scatter :
+    'a1 option list -> nat list -> 'a1 list -> 'a1 option list **)
+
+let rec scatter arr idxs vals =
+  match idxs with
+  | [] -> arr
+  | i :: it ->
+    (match vals with
+     | [] -> arr
+     | v :: vt -> scatter (upd arr i (Some v)) it vt)
+
+(** val select : nat list -> bool list -> nat list **)
+
+let rec select idxs mask0 =
+  match idxs with
+  | [] -> []
+  | i :: it ->
+    (match mask0 with
+     | [] -> []
+     | b :: bt -> if b then i :: (select it bt) else select it bt)
+
+type ('d, 'sol) ask_result =
+| Done of 'sol option list * 'd option list * nat * nat
+| NeedMore of nat
+| OutOfFuel
+
+(** val ask_loop :
+    ('a1 -> 'a2) -> ('a2 -> bool) -> nat -> nat list -> 'a1 list -> 'a2
+    option list -> 'a1 option list -> nat -> nat -> ('a1, 'a2) ask_result **)
+
+let rec ask_loop f oob fuel remaining stream sols noise rounds consumed =
+  match remaining with
+  | [] -> Done (sols, noise, rounds, consumed)
+  | _ :: _ ->
+    (match fuel with
+     | O -> OutOfFuel
+     | S fuel' ->
+       let k = length remaining in
+       if Nat.ltb (length stream) k
+       then NeedMore (sub k (length stream))
+       else let z0 = firstn k stream in
+            let noise' = scatter noise remaining z0 in
+            let new0 = map f z0 in
+            let sols' = scatter sols remaining new0 in
+            let remaining' = select remaining (map oob new0) in
+            ask_loop f oob fuel' remaining' (skipn k stream) sols' noise' (S
+              rounds) (add consumed k))
+
+(** val ask :
+    ('a1 -> 'a2) -> ('a2 -> bool) -> nat -> 'a1 list -> ('a1, 'a2) ask_result **)
+
+let ask f oob batch stream =
+  ask_loop f oob (S (length stream)) (seq O batch) stream (repeat None batch)
+    (repeat None batch) O O
+
+(** val ask_mirror :
+    ('a1 -> 'a2) -> ('a1 -> 'a1) -> nat -> 'a1 list -> ('a1, 'a2) ask_result **)
+
+let ask_mirror f neg batch stream =
+  let h = Nat.div batch (S (S O)) in
+  if Nat.ltb (length stream) h
+  then NeedMore (sub h (length stream))
+  else let half = firstn h stream in
+       let noise = app half (map neg half) in
+       Done ((map (fun d -> Some (f d)) noise),
+       (map (fun x -> Some x) noise), (S O), h)
+
+(** val vadd : q list -> q list -> q list **)
+
+let vadd a b =
+  map (fun p -> qplus (fst p) (snd p)) (combine a b)
+
+(** val vscale : q -> q list -> q list **)
+
+let vscale c a =
+  map (qmult c) a
+
+(** val gather : 'a1 -> 'a1 list -> nat list -> 'a1 list **)
+
+let gather d arr idxs =
+  map (fun i -> nth i arr d) idxs
+
+(** val select_parents : 'a1 -> 'a1 list -> nat list -> nat -> 'a1 list **)
+
+let select_parents d sols ranking num_parents =
+  firstn num_parents (gather d sols ranking)
+
+(** val wmean : nat -> q list -> q list list -> q list **)
+
+let wmean dim weights parents =
+  fold_left vadd
+    (map (fun p -> vscale (fst p) (snd p)) (combine weights parents))
+    (repeat { qnum = Z0; qden = XH } dim)
+
+type counter_kind =
+| Evals
+| Gens
+
+type dstate = { d_mean : q list; d_count : nat }
+
+(** val tell_mean :
+    counter_kind -> (nat -> q list) -> dstate -> q list list -> nat list ->
+    nat -> dstate **)
+
+let tell_mean kind weights s sols ranking num_parents =
+  let count' =
+    match kind with
+    | Evals -> add s.d_count (length ranking)
+    | Gens -> add s.d_count (S O)
+  in
+  if Nat.eqb num_parents O
+  then { d_mean = s.d_mean; d_count = count' }
+  else { d_mean =
+         (wmean (length s.d_mean) (weights num_parents)
+           (select_parents [] sols ranking num_parents)); d_count = count' }
+
+(** val openai_ranks : nat -> nat list -> nat option list **)
+
+let openai_ranks batch ranking =
+  scatter (repeat None batch) (rev ranking) (seq O batch)
+
+(** val qnat : nat -> q **)
+
+let qnat n =
+  inject_Z (Z.of_nat n)
+
+(** val centred : nat -> nat option -> q **)
+
+let centred batch = function
+| Some k ->
+  qminus (qdiv (qnat k) (qnat (sub batch (S O)))) { qnum = (Zpos XH); qden =
+    (XO XH) }
+| None -> { qnum = Z0; qden = XH }
+
+(** val vsum : nat -> q list list -> q list **)
+
+let vsum dim rows0 =
+  fold_left vadd rows0 (repeat { qnum = Z0; qden = XH } dim)
+
+(** val openai_gradient :
+    bool -> nat -> nat -> q -> q list list -> nat list -> q list **)
+
+let openai_gradient mirror batch dim sigma0 noise ranking =
+  let cr = map (centred batch) (openai_ranks batch ranking) in
+  if mirror
+  then let h = Nat.div batch (S (S O)) in
+       let diff =
+         map (fun p -> qminus (fst p) (snd p))
+           (combine (firstn h cr) (skipn h cr))
+       in
+       vscale (qinv (qmult (qnat h) sigma0))
+         (vsum dim
+           (map (fun p -> vscale (snd p) (fst p))
+             (combine (firstn h noise) diff)))
+  else vscale (qinv (qmult (qnat batch) sigma0))
+         (vsum dim (map (fun p -> vscale (snd p) (fst p)) (combine noise cr)))
+
+(** val eresult :
+    ('a2 -> sx) -> ('a1 -> sx) -> ('a1, 'a2) ask_result -> sx **)
+
+let eresult es ed = function
+| Done (sols, noise, rounds, consumed) ->
+  SL ((SZ
+    Z0) :: ((enat rounds) :: ((enat consumed) :: ((elist (eopt es) sols) :: (
+    (elist (eopt ed) noise) :: [])))))
+| NeedMore k -> SL ((SZ (Zpos XH)) :: ((enat k) :: []))
+| OutOfFuel -> SL ((SZ (Zpos (XO XH))) :: [])
+
+(** val run_C18 : sx -> sx **)
+
+let run_C18 = function
+| SZ _ -> sx_fail
+| SL l ->
+  (match l with
+   | [] -> sx_fail
+   | s :: l0 ->
+     (match s with
+      | SZ z0 ->
+        (match z0 with
+         | Z0 ->
+           (match l0 with
+            | [] -> sx_fail
+            | b :: l1 ->
+              (match l1 with
+               | [] -> sx_fail
+               | fl :: l2 ->
+                 (match l2 with
+                  | [] ->
+                    (match dnat b with
+                     | Some batch ->
+                       (match dlist dbool fl with
+                        | Some flags ->
+                          eresult enat enat
+                            (ask (fun d -> d) (fun s0 -> nth s0 flags false)
+                              batch (seq O (length flags)))
+                        | None -> sx_fail)
+                     | None -> sx_fail)
+                  | _ :: _ -> sx_fail)))
+         | Zpos p ->
+           (match p with
+            | XI p0 ->
+              (match p0 with
+               | XH ->
+                 (match l0 with
+                  | [] -> sx_fail
+                  | mi :: l1 ->
+                    (match l1 with
+                     | [] -> sx_fail
+                     | b :: l2 ->
+                       (match l2 with
+                        | [] -> sx_fail
+                        | d :: l3 ->
+                          (match l3 with
+                           | [] -> sx_fail
+                           | s0 :: l4 ->
+                             (match l4 with
+                              | [] -> sx_fail
+                              | nz :: l5 ->
+                                (match l5 with
+                                 | [] -> sx_fail
+                                 | rk :: l6 ->
+                                   (match l6 with
+                                    | [] ->
+                                      (match dbool mi with
+                                       | Some mirror ->
+                                         (match dnat b with
+                                          | Some batch ->
+                                            (match dnat d with
+                                             | Some dim ->
+                                               (match dq s0 with
+                                                | Some sigma0 ->
+                                                  (match dlist (dlist dq) nz with
+                                                   | Some noise ->
+                                                     (match dlist dnat rk with
+                                                      | Some ranking ->
+                                                        SL
+                                                          ((elist eq_
+                                                             (openai_gradient
+                                                               mirror batch
+                                                               dim sigma0
+                                                               noise ranking)) :: (
+                                                          (elist (eopt enat)
+                                                            (openai_ranks
+                                                              batch ranking)) :: []))
+                                                      | None -> sx_fail)
+                                                   | None -> sx_fail)
+                                                | None -> sx_fail)
+                                             | None -> sx_fail)
+                                          | None -> sx_fail)
+                                       | None -> sx_fail)
+                                    | _ :: _ -> sx_fail)))))))
+               | _ -> sx_fail)
+            | XO p0 ->
+              (match p0 with
+               | XH ->
+                 (match l0 with
+                  | [] -> sx_fail
+                  | k :: l1 ->
+                    (match l1 with
+                     | [] -> sx_fail
+                     | m :: l2 ->
+                       (match l2 with
+                        | [] -> sx_fail
+                        | c :: l3 ->
+                          (match l3 with
+                           | [] -> sx_fail
+                           | ss :: l4 ->
+                             (match l4 with
+                              | [] -> sx_fail
+                              | rk :: l5 ->
+                                (match l5 with
+                                 | [] -> sx_fail
+                                 | np :: l6 ->
+                                   (match l6 with
+                                    | [] -> sx_fail
+                                    | ws :: l7 ->
+                                      (match l7 with
+                                       | [] ->
+                                         (match dnat k with
+                                          | Some kind ->
+                                            (match dlist dq m with
+                                             | Some mean ->
+                                               (match dnat c with
+                                                | Some count ->
+                                                  (match dlist (dlist dq) ss with
+                                                   | Some sols ->
+                                                     (match dlist dnat rk with
+                                                      | Some ranking ->
+                                                        (match dnat np with
+                                                         | Some nump ->
+                                                           (match dlist dq ws with
+                                                            | Some weights ->
+                                                              let s' =
+                                                                tell_mean
+                                                                  (if 
+                                                                    Nat.eqb
+                                                                    kind O
+                                                                   then Evals
+                                                                   else Gens)
+                                                                  (fun _ ->
+                                                                  weights)
+                                                                  { d_mean =
+                                                                  mean;
+                                                                  d_count =
+                                                                  count }
+                                                                  sols
+                                                                  ranking nump
+                                                              in
+                                                              SL
+                                                              ((elist eq_
+                                                                 s'.d_mean) :: (
+                                                              (enat
+                                                                s'.d_count) :: (
+                                                              (elist enat
+                                                                (select_parents
+                                                                  O
+                                                                  (seq O
+                                                                    (length
+                                                                    sols))
+                                                                  ranking
+                                                                  nump)) :: [])))
+                                                            | None -> sx_fail)
+                                                         | None -> sx_fail)
+                                                      | None -> sx_fail)
+                                                   | None -> sx_fail)
+                                                | None -> sx_fail)
+                                             | None -> sx_fail)
+                                          | None -> sx_fail)
+                                       | _ :: _ -> sx_fail))))))))
+               | _ -> sx_fail)
+            | XH ->
+              (match l0 with
+               | [] -> sx_fail
+               | b :: l1 ->
+                 (match l1 with
+                  | [] -> sx_fail
+                  | a :: l2 ->
+                    (match l2 with
+                     | [] ->
+                       (match dnat b with
+                        | Some batch ->
+                          (match dnat a with
+                           | Some avail ->
+                             eresult ez ez
+                               (ask_mirror (fun d -> d) Z.opp batch
+                                 (map (fun k -> Z.of_nat (S k)) (seq O avail)))
+                           | None -> sx_fail)
+                        | None -> sx_fail)
+                     | _ :: _ -> sx_fail))))
+         | Zneg _ -> sx_fail)
+      | SL _ -> sx_fail))
